@@ -50,8 +50,35 @@ class Residual(nn.Module):
         return self.fc((a + b).flatten(1))
 
 
+class DepthwiseFirst(nn.Module):
+    """the first layer is a depthwise convolution"""
+    def __init__(self):
+        super().__init__()
+        self.c0 = nn.Conv2d(2, 2, 1, groups=2)
+        self.c1 = nn.Conv2d(2, 2, 1)
+        self.fc = nn.Linear(2, 2)
+
+    def forward(self, x):
+        return self.fc(self.c1(self.c0(x)).flatten(1))
+
+
+class DepthwiseMiddle(nn.Module):
+    """a depthwise convolution between two convolutions"""
+    def __init__(self):
+        super().__init__()
+        self.c0 = nn.Conv2d(1, 2, 1)
+        self.dw = nn.Conv2d(2, 2, 1, groups=2)
+        self.fc = nn.Linear(2, 2)
+
+    def forward(self, x):
+        return self.fc(self.dw(self.c0(x)).flatten(1))
+
+
 NETS = {'chain': (Chain, {'c0': 'x_input_quantizer', 'c1': 'c0', 'fc': 'c1'}),
-        'residual': (Residual, {'c0': 'x_input_quantizer', 'c1': 'c0'})}
+        'residual': (Residual, {'c0': 'x_input_quantizer', 'c1': 'c0'}),
+        'depthwise-first': (DepthwiseFirst, {'c0': 'x_input_quantizer', 'c1': 'c0', 'fc': 'c1'}),
+        'depthwise-middle': (DepthwiseMiddle, {'c0': 'x_input_quantizer', 'dw': 'c0', 'fc': 'dw'})}
+SHAPES = {'depthwise-first': (1, 2, 1, 1)}
 SHAPE = (1, 1, 1, 1)
 
 
@@ -79,7 +106,8 @@ def h_mps_whole(H, net, training):
     _concrete_weights(H, user)
     user.train(training)
     flags = [m.training for m in user.modules()]
-    model = MPS(user, input_example=torch.zeros(*SHAPE), qinfo=get_default_qinfo((2, 8), (4, 8)))
+    shape = SHAPES.get(net, SHAPE)
+    model = MPS(user, input_example=torch.zeros(*shape), qinfo=get_default_qinfo((2, 8), (4, 8)))
     H.observe('nodes', [(n.op, str(n.target) if n.op != 'call_function' else n.name, n.name, [a.name for a in n.all_input_nodes]) for n in model.seed.graph.nodes])
     H.observe('modules', [(n, H.type_name(m)) for n, m in model.seed.named_modules() if 'qtz_funcs' not in n])
     H.ensure('import:wrapper-keeps-the-training-mode-it-found', all(m.training == training for m in model.modules()))
@@ -87,7 +115,7 @@ def h_mps_whole(H, net, training):
     layers = dict(model.seed.named_modules())
     # C02 wiring: the input quantizer of a layer IS the output quantizer chosen for the tensor it consumes
     for name, prod in feeds.items():
-        H.ensure('wiring:input-quantizer-of-a-layer-is-the-output-quantizer-of-its-producer',
+        H.ensure('[C02] wiring:input-quantizer-of-a-layer-is-the-output-quantizer-of-its-producer',
                  H.same_object(layers[name].in_mps_quantizer, layers[prod].out_mps_quantizer))
     # C11: architectural and network parameters partition the parameters of the model
     nas = [p for _, p in model.named_nas_parameters()]
@@ -104,7 +132,7 @@ def h_mps_whole(H, net, training):
         H.set_(p, a)
         sel[n] = _first_max(H, H.elements(a))
     model.eval()
-    x = H.const_tensor([[[[0.75]]]])
+    x = H.const_tensor([[[[0.75]]]]) if shape[1] == 1 else H.const_tensor([[[[0.75]], [[0.375]]]])
     y_nas = model(x)
     summ = model.summary()
     cost = H.scalar(model.get_cost())
@@ -124,7 +152,7 @@ def h_mps_whole(H, net, training):
     # C02: consecutive layers agree on the precision of the tensor between them
     for name, prod in feeds.items():
         if prod in summ:
-            H.ensure('summary:input-precision-of-a-layer-is-the-output-precision-of-its-producer', summ[name]['in_precision'] == summ[prod]['out_precision'])
+            H.ensure('[C02] summary:input-precision-of-a-layer-is-the-output-precision-of-its-producer', summ[name]['in_precision'] == summ[prod]['out_precision'])
     H.ensure('export:model-output-unchanged-by-export', H.eq(model(x), y_nas))
 
 
@@ -137,6 +165,6 @@ _FUNCS = [_P + 'mps.py::MPS.__init__', _P + 'mps.py::MPS.export', _P + 'mps.py::
           _P + 'graph.py::add_input_quantizer', _P + 'graph.py::fuse_mps_modules', _P + 'graph.py::register_in_mps_quantizers']
 HARNESSES = [
     dict(name='whole-mps', fn='h_mps_whole', property=['C02', 'C05', 'C11', 'C07'], functions=_FUNCS,
-         quick=[dict(net='chain', training=True), dict(net='residual', training=False)],
+         quick=[dict(net='chain', training=True), dict(net='residual', training=False), dict(net='depthwise-first', training=False), dict(net='depthwise-middle', training=False)],
          thorough=[dict(net=n, training=t) for n in NETS for t in _B], timeout=120, crosscheck=2),
 ]
